@@ -242,8 +242,8 @@ def _dataset(draw):
 def subs(tier: str):
     q = tier == "quick"
     return [
-        Sub("hand-mazes", check, "hypothesis", strategy=lambda: _hand(10), examples=80 if q else 1500),
-        Sub("generated-mazes", check, "hypothesis", strategy=lambda: _gen(10), examples=60 if q else 1000),
-        Sub("datasets-and-batches", check_dataset, "hypothesis", strategy=_dataset, examples=20 if q else 300),
-        Sub("config-routes", check_config_route, "hypothesis", strategy=_config_route, examples=10 if q else 150),
+        Sub("hand-mazes", check, "hypothesis", strategy=lambda: _hand(10), examples=80 if q else 5000),
+        Sub("generated-mazes", check, "hypothesis", strategy=lambda: _gen(10), examples=60 if q else 3000),
+        Sub("datasets-and-batches", check_dataset, "hypothesis", strategy=_dataset, examples=20 if q else 1500),
+        Sub("config-routes", check_config_route, "hypothesis", strategy=_config_route, examples=10 if q else 500),
     ]
